@@ -94,6 +94,10 @@ func (s *indirectIssuanceChainService) BuildLogLeaf(ctx context.Context, chain [
 // backend is enabled and the type of LogLeaf.ExtraData contains any hash
 // (e.g. PrecertChainEntryHash, CertificateChainHash).
 func (s *indirectIssuanceChainService) FixLogLeaf(ctx context.Context, leaf *trillian.LogLeaf) error {
+	if leaf == nil {
+		// A backend reply without a leaf is reported by the caller as a bad response.
+		return fmt.Errorf("no log leaf to fix")
+	}
 	// As the struct stored in leaf.ExtraData is unknown, the only way is to try to unmarshal with each possible struct.
 	// Try to unmarshal with ct.PrecertChainEntryHash struct.
 	var precertChainHash ct.PrecertChainEntryHash
